@@ -37,8 +37,20 @@ func IsLetter(char rune) bool {
 	)
 }
 
+// Words which the lexer turns into keyword tokens: they have the shape of an identifier but are none.
+var keywords = map[string]struct{}{
+	"true": {}, "on": {}, "false": {}, "off": {}, "null": {}, "none": {}, "pub": {}, "fn": {}, "if": {}, "else": {},
+	"match": {}, "for": {}, "while": {}, "loop": {}, "break": {}, "continue": {}, "return": {}, "import": {}, "as": {},
+	"from": {}, "let": {}, "in": {}, "type": {}, "try": {}, "catch": {}, "new": {}, "spawn": {}, "event": {}, "impl": {},
+	"with": {}, "templ": {}, "trigger": {},
+}
+
 func IsIdent(test string) bool {
 	if len(test) == 0 {
+		return false
+	}
+
+	if _, isKeyword := keywords[test]; isKeyword {
 		return false
 	}
 
